@@ -92,6 +92,8 @@ class Server:
         self.nat_of = {}       # uuid -> nat id
         self.obj_nat = {}      # python id of a bptk object -> nat id of the instance it serves
         self.t0 = _dt.datetime.now()
+        self.shown = []        # destroy log as reported: the ids destroyed by one request in ascending order
+        self.restored_ids = set()
 
     # ---- observation (no request, no sweep)
     def _learn(self):
@@ -107,9 +109,12 @@ class Server:
         live = []
         for u, v in self.app._instance_manager._instances.items():
             base = EPOCH if self.clock else self.t0
-            live.append((self.nat_of[u], (v["time"] - base) // US, micros(v["timeout"]),
+            live.append((self.nat_of[u], (v["time"] - base) // US, max(0, micros(v["timeout"])),
                          1 if v["instance"].session_state is not None else 0))
-        destroyed = [self.obj_nat.get(o, -1) for o in self.destroy_log]
+        live.sort()            # dict order after a load-state follows the directory listing: compared by id
+        log = [self.obj_nat.get(o, -1) for o in self.destroy_log]
+        self.shown += sorted(log[len(self.shown):])
+        destroyed = list(self.shown)
         stored = {}
         for fn in os.listdir(self.dir):
             u = fn.split(".")[0]
@@ -117,7 +122,7 @@ class Server:
                 try:
                     import jsonpickle
                     d = jsonpickle.loads(open(os.path.join(self.dir, fn)).read())
-                    stored[self.nat_of[u]] = micros(d["data"]["timeout"])
+                    stored[self.nat_of[u]] = max(0, micros(d["data"]["timeout"]))
                 except Exception:
                     stored[self.nat_of[u]] = -1
         return {"live": live, "destroyed": destroyed, "stored": stored}
@@ -145,6 +150,12 @@ class Server:
                 r = c.post(f"/{u}/end-session")
         elif k == "keepalive":
             r = c.post(f"/{self.uuid(ev[1])}/keep-alive")
+        elif k == "stop":
+            r = c.post(f"/{self.uuid(ev[1])}/stop-instance")
+        elif k == "savestate":
+            r = c.get("/save-state")
+        elif k == "loadstate":
+            r = c.post("/load-state")
         elif k == "metrics":
             r = c.get("/metrics")
             m = [l for l in r.get_data(as_text=True).split("\n") if l.startswith("bptk_instance_count ")]
@@ -181,6 +192,8 @@ def ev_line(now, ev):
         return f"ev {now} access {ev[1]} {ev[2]}"
     if k == "keepalive":
         return f"ev {now} keepalive {ev[1]}"
+    if k == "stop":
+        return f"ev {now} stop {ev[1]}"
     return f"ev {now} {k}"
 
 
@@ -200,9 +213,14 @@ def ref_check(before, now, ev, ok, reported, after):
     def valid(j):
         return j in b or (ev[0] == "access" and j in before["stored"])
     trigger = ev[0] in ("create", "metrics", "fullmetrics") or (target is not None and valid(target))
+    stopped = ev[1] if ev[0] == "stop" else None
+    if stopped is not None and (stopped in a or stopped in after["stored"]):
+        out.append(("stop-not-gone", f"stop-instance {stopped} at {now}: afterwards live={stopped in a}, state file={stopped in after['stored']}"))
     for k, (l, tau, _) in b.items():
         exp = now >= l + tau
         dcount = after["destroyed"].count(k) - before["destroyed"].count(k)
+        if k == stopped:
+            continue            # removed on explicit request, not by the timeout
         if not exp:
             if k not in a:
                 out.append(("removed-early", f"instance {k} (last access {l}, timeout {tau}) removed at {now} < {l + tau} by {ev}"))
@@ -241,10 +259,25 @@ def ref_check(before, now, ev, ok, reported, after):
 
 
 # ------------------------------------------------------------------ history generation (online, from the observed state)
+SHORT = [lambda r: {"milliseconds": r.range(1, 2000)}, lambda r: {"seconds": r.range(1, 5)}, lambda r: {"microseconds": r.range(500, 3000)},
+         lambda r: {"seconds": 1, "milliseconds": r.range(0, 900)}, lambda r: {"seconds": r.range(1, 3), "microseconds": r.range(0, 5)}]
+LONG = [lambda r: {"minutes": r.range(5, 90)}, lambda r: {"hours": r.range(1, 5)}, lambda r: {"days": r.range(1, 3)}, lambda r: {"weeks": 1},
+        lambda r: {"hours": 12, "minutes": 0, "seconds": 0}]
+ODD = [{"seconds": -3}, {"seconds": 0.5}, {"milliseconds": 1.5}, {"microseconds": 2.5}, {"microseconds": 3.5}, {"minutes": 0.25, "seconds": -10},
+       {"seconds": 1, "microseconds": -1}, {"microseconds": -0.5}, {"hours": -1, "minutes": 60, "seconds": 2}, {"days": 0.25}, {"milliseconds": -1},
+       {"seconds": 2.25, "microseconds": 0.5}, {"weeks": 0.25, "days": -1.75, "milliseconds": 0.5}]
+
+
 def gen_timeout(rng):
-    r = rng.below(12)
+    r = rng.below(16)
     if r == 0:
         return {}                     # all units absent -> timedelta(0)
+    if r == 12:
+        return dict(rng.choice(ODD))  # the endpoint accepts negative and fractional numbers (outside its documented contract)
+    if r == 13 or r == 14:
+        return rng.choice(SHORT)(rng)
+    if r == 15:
+        return rng.choice(LONG)(rng)
     d = {}
     for u in rng.shuffle(UNITS)[: 1 if r < 8 else rng.range(2, 4)]:
         d[u] = {"weeks": rng.range(0, 2), "days": rng.range(0, 3), "hours": rng.range(0, 5), "minutes": rng.range(0, 90),
@@ -263,9 +296,15 @@ def next_event(rng, o, now, ncreated, max_inst):
         ev = ("create", gen_timeout(rng))
     elif r < 55 and known:
         ev = ("access", rng.choice(known) if rng.chance(9, 10) else ncreated + rng.below(2), rng.choice(["begin", "results", "step", "step", "end", "results"]))
-    elif r < 72 and known:
+    elif r < 70 and known:
         ev = ("keepalive", rng.choice(known) if rng.chance(9, 10) else ncreated + rng.below(2))
-    elif r < 86:
+    elif r < 74 and known:
+        ev = ("stop", rng.choice(known) if rng.chance(9, 10) else ncreated)
+    elif r < 78:
+        ev = ("savestate",)
+    elif r < 83:
+        ev = ("loadstate",)
+    elif r < 92:
         ev = ("metrics",)
     else:
         ev = ("fullmetrics",)
@@ -282,6 +321,77 @@ def next_event(rng, o, now, ncreated, max_inst):
     return now2, ev
 
 
+def pattern_history(rng):
+    """The restored-instance pattern, with random parameters: a SHORT-timeout instance A with an externalised
+    session and a LONG-timeout instance B (either creation order, sometimes a third instance); A times out and is
+    swept by a trigger; A is restored (instance-scoped request, keep-alive, or load-state); the server idles past
+    the restored A's timeout (B's deadline is far away); a trigger; then A must be gone from both metrics,
+    destroyed once more, and its id answered by a new restore — or refused after stop-instance removed the file."""
+    ta, tb = rng.choice(SHORT)(rng), rng.choice(LONG)(rng)
+    tau = micros(ta)
+    evs, now = [], 0
+    order = rng.shuffle(["A", "B"] + (["C"] if rng.chance(1, 3) else []))
+    ids = {}
+    for name in order:
+        ids[name] = len(ids)
+        evs.append((now, ("create", ta if name == "A" else (tb if name == "B" else gen_timeout(rng)))))
+        now += rng.range(0, 3)
+    A, B = ids["A"], ids["B"]
+    small = max(1, tau // 20)
+    def at(ev, gap):
+        nonlocal now
+        now += gap
+        evs.append((now, ev))
+    at(("access", A, "begin"), rng.range(0, small))
+    for _ in range(rng.range(1, 3)):
+        at(("access", A, "step"), rng.range(0, small))
+    last_a = now
+    if rng.chance(1, 3):
+        at(("access", B, "begin"), 0)
+        at(("access", B, "step"), 0)
+        if rng.chance(1, 2):
+            at(("savestate",), 0)
+    def trigger():
+        opts = [("metrics",), ("fullmetrics",), ("access", B, "results"), ("keepalive", B), ("metrics",)]
+        if sum(1 for _, e in evs if e[0] == "create") < 4:
+            opts.append(("create", rng.choice(LONG)(rng)))
+        return rng.choice(opts)
+    # first expiry of A
+    now = max(now, last_a + tau + rng.choice([0, 0, 1, 2, rng.range(0, tau)]))
+    evs.append((now, trigger()))
+    at(("fullmetrics",), rng.range(0, small))
+    # restore
+    how = rng.choice(["access", "access", "keepalive", "loadstate"])
+    gap = rng.choice([0, 1, rng.range(0, 3 * tau)])
+    if how == "access":
+        at(("access", A, rng.choice(["results", "step", "begin", "end", "results"])), gap)
+    elif how == "keepalive":
+        at(("keepalive", A), gap)
+    else:
+        at(("loadstate",), gap)
+    last_a = now
+    for _ in range(rng.range(0, 2)):
+        at(rng.choice([("access", A, "results"), ("keepalive", A), ("access", A, "step")]), rng.range(0, small))
+        last_a = now
+    if rng.chance(1, 3):
+        at(rng.choice([("access", B, "results"), ("metrics",)]), rng.range(0, small))    # not yet expired: must survive
+    # idle past the restored instance's timeout, then a trigger
+    d3 = rng.choice([0, 0, 1, 2, -1, rng.range(0, 2 * tau)])
+    now = max(now, last_a + tau + d3)
+    evs.append((now, trigger()))
+    at(("fullmetrics",), rng.range(0, 2))
+    at(("metrics",), 0)
+    if rng.chance(1, 3):
+        at(("stop", A), rng.range(0, small))
+        at(("access", A, "results"), 1)          # refused: no instance, no file
+        at(("keepalive", A), 1)
+    else:
+        at(("access", A, rng.choice(["results", "step"])), rng.range(0, 3 * tau))   # restored once more
+        now = now + tau
+        evs.append((now, ("metrics",)))
+    return evs
+
+
 def run_history(events, on_step=None):
     """Replay [(now, ev)] on a fresh server under the controlled clock. Returns (lines, violations)."""
     s = Server()
@@ -295,7 +405,9 @@ def run_history(events, on_step=None):
             lines.append(obs_line(ok, after))
             for key, text in ref_check(before, now, ev, ok, rep, after):
                 viols.append((idx, key, text))
+            track(s, before, ev, after)
             before = after
+            viols += destroy_once(s, idx)
     finally:
         s.close()
     return lines, viols
@@ -315,10 +427,51 @@ def generate_and_run(rng, n_events, max_inst):
             lines.append(obs_line(ok, after))
             for key, text in ref_check(o, now, ev, ok, rep, after):
                 viols.append((idx, key, text))
+            track(s, o, ev, after)
             o = after
+            viols += destroy_once(s, idx)
     finally:
         s.close()
     return events, lines, viols
+
+
+STATS = {"restores": 0, "restored_then_expired": 0, "restored_then_expired_with_other_live": 0, "loadstate_overwrites": 0}
+
+
+def track(s, before, ev, after):
+    """bookkeeping for the input distribution: how often a RESTORED instance later timed out and was swept"""
+    b = {i for i, *_ in before["live"]}
+    a = {i for i, *_ in after["live"]}
+    newly = after["destroyed"][len(before["destroyed"]):]
+    for k in newly:
+        if k in s.restored_ids:
+            STATS["restored_then_expired"] += 1
+            if a - {k}:
+                STATS["restored_then_expired_with_other_live"] += 1
+            s.restored_ids.discard(k)
+    if ev[0] in ("access", "keepalive") and ev[1] not in b and ev[1] in a:
+        s.restored_ids.add(ev[1]); STATS["restores"] += 1
+    if ev[0] == "loadstate":
+        for k in a - b:
+            s.restored_ids.add(k); STATS["restores"] += 1
+        STATS["loadstate_overwrites"] += len(a & b & set(before["stored"]))
+    if ev[0] == "stop":
+        s.restored_ids.discard(ev[1])
+
+
+def destroy_once(s, idx):
+    """global reference: over the whole history no bptk object gets destroy() twice, and none that still
+    serves a live instance was destroyed"""
+    out = []
+    log = s.destroy_log
+    if len(set(log)) != len(log):
+        dup = next(o for o in log if log.count(o) > 1)
+        out.append((idx, "destroyed-twice", f"destroy() called {log.count(dup)}x on the bptk object of instance {s.obj_nat.get(dup, '?')}"))
+    live_objs = {id(v["instance"]) for v in s.app._instance_manager._instances.values()}
+    if live_objs & set(log):
+        o = next(iter(live_objs & set(log)))
+        out.append((idx, "destroyed-while-alive", f"the bptk object serving live instance {s.obj_nat.get(o, '?')} has been destroyed"))
+    return out
 
 
 def fixed_histories():
@@ -341,6 +494,18 @@ def fixed_histories():
          (2 * S + 1, ("access", 1, "results")), (2 * S + 2, ("access", 0, "results"))],
         # timeout zero, every unit present
         [(0, ("create", {u: 0 for u in UNITS})), (0, ("keepalive", 0)), (0, ("create", {})), (1, ("access", 1, "begin"))],
+        # restored short-timeout instance next to a live long-timeout one: must time out again (wave 2)
+        [(0, ("create", {"seconds": 2})), (0, ("create", {"hours": 1})), (1, ("access", 0, "begin")), (2, ("access", 0, "step")),
+         (3 * S, ("metrics",)), (4 * S, ("access", 0, "results")), (6 * S - 1, ("metrics",)), (6 * S, ("metrics",)), (6 * S, ("fullmetrics",)),
+         (7 * S, ("keepalive", 0)), (9 * S, ("access", 1, "results")), (9 * S, ("stop", 0)), (9 * S + 1, ("access", 0, "results"))],
+        # the same through load-state; save-state refuses while an instance has no session; stop-instance removes the file
+        [(0, ("create", {"milliseconds": 1500})), (0, ("create", {"days": 1})), (1, ("access", 0, "begin")), (2, ("savestate",)),
+         (3, ("access", 1, "begin")), (4, ("savestate",)), (2 * S, ("fullmetrics",)), (3 * S, ("loadstate",)), (3 * S + 1, ("fullmetrics",)),
+         (4 * S + 499_999, ("metrics",)), (4 * S + 500_000, ("metrics",)), (5 * S, ("stop", 1)), (5 * S, ("loadstate",)), (5 * S + 1, ("access", 1, "results"))],
+        # timeouts outside the documented contract: negative, fractional (half-even rounding of microseconds)
+        [(0, ("create", {"seconds": -3})), (0, ("keepalive", 0)), (0, ("create", {"seconds": 0.5})), (499_999, ("metrics",)), (500_000, ("metrics",)),
+         (500_000, ("create", {"microseconds": 2.5})), (500_002, ("fullmetrics",)), (500_002, ("create", {"microseconds": 3.5})),
+         (500_005, ("metrics",)), (500_006, ("metrics",))],
         # every unit
         [(0, ("create", {"weeks": 1})), (0, ("create", {"days": 1})), (0, ("create", {"hours": 1})), (0, ("create", {"minutes": 1})),
          (60 * S - 1, ("metrics",)), (60 * S, ("metrics",)), (3600 * S, ("metrics",)), (86400 * S, ("metrics",)),
@@ -475,6 +640,17 @@ def run(chk):
         for evs in fixed_histories():
             lines, viols = run_history(evs)
             hists.append((evs, lines, viols))
+        # quarter-unit conversion stream (negative and fractional values): timedelta rounds once, half to even
+        rng = chk.rng.fork("c17-quarters")
+        for _ in range(300 if chk.quick else 3000):
+            qs = [rng.range(-8, 8), rng.range(-30, 30), rng.range(-100, 100), rng.range(-400, 400), rng.range(-20000, 20000), rng.range(-4 * 10**4, 4 * 10**4), rng.range(-4 * 10**6, 4 * 10**6)]
+            req.append("qmicros " + " ".join(map(str, qs))); real.append(str(micros({u: q / 4 for u, q in zip(UNITS, qs)}))); ctx.append(("units", qs))
+        rng = chk.rng.fork("c17-pattern")
+        n_pat = 150 if chk.quick else 1500
+        for h in range(n_pat):
+            evs = pattern_history(rng.fork(h))
+            lines, viols = run_history(evs)
+            hists.append((evs, lines, viols))
         rng = chk.rng.fork("c17-hist")
         for h in range(400 if chk.quick else 5000):
             evs, lines, viols = generate_and_run(rng.fork(h), rng.range(8, 40), rng.range(1, 4))
@@ -489,6 +665,8 @@ def run(chk):
                 for u, v in ev[1].items():
                     if v:
                         dist["units"][u] = dist["units"].get(u, 0) + 1
+                if any(v < 0 or v != int(v) for v in ev[1].values()):
+                    dist["odd_timeouts"] = dist.get("odd_timeouts", 0) + 1
             dist["ok" if ln.startswith("ok") else "err"] += 1
             nd = len([x for x in ln.split(";destroyed=")[1].split(";")[0].split(",") if x])
             dist["expiries"] += nd - prev_destroyed
@@ -500,6 +678,7 @@ def run(chk):
             all_viols.append((hi, evs, idx, key, text))
     model = drive("C17", req)
     chk.cov["traces_validated_against_impl"] = len(hists)
+    dist.update(STATS)
     chk.cov["input_distribution"] = dist
     chk.cov["rule"] = ("timed histories of 8..40 requests over <= 4 instances generated online from the observed server state (create with a timeout in "
                        "1..4 of the 7 units incl. 0, begin/results/step/end/keep-alive on live, expired, externalised and unknown ids, metrics, full-metrics); "
